@@ -476,6 +476,65 @@ def build(uni):
             modifies=VISIT_ONLY),
     }
     cs.append(c)
+    # ------------------------------------------- IfBlock, WhileLoop, Node
+    PARTN = z3.Function("part_of_statement", Ref, INT, Ref)   # may be null
+
+    def partn(k, nullable=False):
+        def h(it, s, a, kw, st, fr):
+            r = PARTN(s.e, z3.IntVal(k))
+            if not nullable:
+                st.assume(r != NULLC)
+            st.assume(z3.Select(AL0, r))
+            return VRef(r, "Reference")
+        return h
+    uni.method_hooks.update({
+        "IfBlock.condition": partn(0), "IfBlock.if_body": partn(1),
+        "IfBlock.else_body": partn(2, nullable=True),
+        "WhileLoop.condition": partn(0), "WhileLoop.loop_body": partn(1),
+    })
+    uni.consts["PARTN"] = VFunc("hook", fn=lambda it, a, k, st, fr: VRef(
+        PARTN(a[0].e, it.as_int(a[1])), "Reference"))
+    for path, cls, parts, opt in (
+            ("psyir/nodes/if_block.py", "IfBlock", (0, 1), 2),
+            ("psyir/nodes/while_loop.py", "WhileLoop", (0, 1), None)):
+        ens = " and ".join(f"visited(PARTN(self, {k}), var_accesses)"
+                           for k in parts)
+        if opt is not None:
+            ens += (f" and implies(PARTN(self, {opt}) is not None, "
+                    f"visited(PARTN(self, {opt}), var_accesses))")
+        c = Contract(
+            f"{path}:{cls}.reference_accesses",
+            params={"self": cls, "var_accesses": "VariablesAccessInfo"},
+            requires=[("tree", "var_accesses is not None"),
+                      ("fresh_events", "NOEVENTS()")],
+            ensures=[("condition_and_every_body_visited", ens)],
+            raises={}, modifies=list(uni.heap_extra),
+            covers=[("ok", "True")])
+        uni.contracts[f"{cls}.reference_accesses:top"] = c
+        cs.append(c)
+    c = Contract(
+        "psyir/nodes/node.py:Node.reference_accesses",
+        params={"self": "Node", "var_accesses": "VariablesAccessInfo"},
+        requires=[("tree", "var_accesses is not None and "
+                   "self._children is not None and forall(lambda q: "
+                   "implies(0 <= q and q < len(self._children), "
+                   "at(self._children, q) is not None))"),
+                  ("fresh_events", "NOEVENTS()")],
+        ensures=[("every_child_visited",
+                  "forall(lambda q: implies(0 <= q and "
+                  "q < len(self._children), "
+                  "visited(at(self._children, q), var_accesses)))")],
+        raises={}, modifies=list(uni.heap_extra),
+        covers=[("two", "len(self._children) >= 2")])
+    uni.contracts["Node.reference_accesses:top"] = c
+    uni.loopspecs["Node.reference_accesses"] = {
+        0: LoopSpec(invariants=[
+            MONO,
+            ("iter", "_iter is self._children"),
+            ("done", "forall(lambda q: implies(0 <= q and q < _k, "
+                     "visited(at(self._children, q), var_accesses)))")],
+            modifies=list(uni.heap_extra))}
+    cs.append(c)
     return cs
 
 
